@@ -43,7 +43,7 @@ def grammars(rng, count, cap=500):
 def check(prop, tier, seed, res):
     q = tier == "quick"
     rng = random.Random(f"{prop}-oracle-{seed}")
-    gs = grammars(rng, 16 if q else 640, cap=200 if q else 500)
+    gs = grammars(rng, 16 if q else 320, cap=200 if q else 400)
     nsh = 8 if q else 16
     wd = core.workdir(f"{prop}o-{tier}")
     shards = [gs[i::nsh] for i in range(nsh) if gs[i::nsh]]
